@@ -35,7 +35,7 @@ def shards(tier):
 def required_classes(tier):
     out = []
     for g in ("g1", "g2"):
-        out += ["%s:rt:%s" % (g, k) for k in ("subgroup", "nonsubgroup", "torsion", "chosen-y", "infinity", "rescaled")]
+        out += ["%s:rt:%s" % (g, k) for k in ("fq-typed-coefficients", "subgroup", "nonsubgroup", "torsion", "chosen-y", "infinity", "rescaled")]
         out += ["%s:word:%s" % (g, k) for k in ("grid", "random", "bitflip")]
         out += ["%s:bytes" % g]
     out += ["g2:rt:y_im=0", "g2:rt:y_re=0", "g2:rt:y_im=half", "g1:rt:x=0", "g2:compress:offcurve"]
@@ -48,10 +48,10 @@ def _lib():
     return pc, gp
 
 
-def roundtrip(rec, g, Pt, cls, rng, scale=None, inf_rep=None, key=None, nontrivial=True):
+def roundtrip(rec, g, Pt, cls, rng, scale=None, inf_rep=None, key=None, nontrivial=True, fq_coeffs=False):
     pc, gp = _lib()
     F = F1 if g == 1 else F2
-    pt = CG.to_lib(MK, Pt, g, rng, scale=scale, inf_rep=inf_rep)
+    pt = CG.to_lib(MK, Pt, g, rng, scale=scale, inf_rep=inf_rep, fq_coeffs=fq_coeffs)
     rec.case("g%d:rt:%s" % (g, cls), ("rt", g, Pt, scale, inf_rep) if key is None else key, nontrivial=nontrivial,
              sample={"group": "G%d" % g, "class": cls, "point": Pt, "scale": scale, "inf_rep": inf_rep})
     comp, dec = (pc.compress_G1, pc.decompress_G1) if g == 1 else (pc.compress_G2, pc.decompress_G2)
@@ -172,6 +172,11 @@ def run(rec):
             Nt = E.rand_point(rng)
             roundtrip(rec, g, Nt, "nonsubgroup", rng)
             roundtrip(rec, g, Nt, "rescaled", rng, scale=CG.rand_scale(F, rng))
+        # coordinates given as elements with FQ-OBJECT coefficients (legal constructor input), z = 1 and rescaled
+        for j in range(2 * scale_n):
+            Pt = E.mul(gens[g], rng.randrange(1, params.BLS_R)) if j % 2 else E.rand_point(rng)
+            roundtrip(rec, g, Pt, "fq-typed-coefficients", rng, fq_coeffs=True)
+            roundtrip(rec, g, Pt, "fq-typed-coefficients", rng, scale=CG.rand_scale(F, rng), fq_coeffs=True)
         for rep in CG.INF_REPS:
             roundtrip(rec, g, None, "infinity", rng, inf_rep=rep)
         qs = list(params.BLS_H1_FACTORS) if g == 1 else list(params.BLS_H2_SMALL_FACTORS)
